@@ -6,7 +6,9 @@
 (* step events.  A "step" event must be an enabled action of the spec, chosen by the kind of   *)
 (* the label and the process:                                                                  *)
 (*    call:cP -> Call(P)     cancel:cP -> Cancel(P)     fire:cP:what -> Fire(P, what)           *)
-(*    grant:cP -> the critical section P is parked at: WriteCS | SampleCS (by pc[P])            *)
+(*    grant:cP -> the critical section P is parked at: WriteCS | SampleCS | LongEnter (by pc[P] *)
+(*                and the operation); not enabled while a long callback holds the mutex         *)
+(*    unhold:cP -> LongExit(P)                                                                  *)
 (* The select wake-ups that the real goroutines perform within the same controller step (Wake, *)
 (* WakeCtx, WakeErr) are taken eagerly by action composition (TLC option                       *)
 (* tlc2.tool.impl.Tool.cdot).  One of them is a genuine choice of the Go runtime: a waiter that *)
@@ -29,6 +31,7 @@
 (*    quiet  -> LibQuiet with exactly the logged blocked set                                    *)
 (*    ret    -> that call has returned in the spec, with the value the spec's step returns      *)
 (*    swapcb -> the callback saw the spec's cell value                                          *)
+(*    swapin -> the long callback was entered with the spec's cell value                        *)
 (*    valid  -> the validator saw the spec's cell value                                         *)
 (* A mismatch is DRIFT: the code no longer takes the steps the spec describes (or the spec is   *)
 (* wrong); it never is a verdict by itself.  After a drift the rest of that run is skipped.     *)
@@ -41,6 +44,7 @@ tv == <<l, drift, live, ps2, sseq, val0>>
 XReset ==
     /\ ps' = FInit(PS0, InitVal, M)
     /\ val' = InitVal
+    /\ mtx' = 0
     /\ wch' = [p \in Procs |-> "none"]
     /\ pc' = [p \in Procs |-> "idle"]
     /\ ip' = [p \in Procs |-> 1]
@@ -57,6 +61,7 @@ Pre(lbl, s) == Len(lbl) > Len(s) /\ SubSeq(lbl, 1, Len(s)) = s
 Kind(lbl) == IF Pre(lbl, "call:c") THEN "call"
              ELSE IF Pre(lbl, "grant:c") THEN "grant"
              ELSE IF Pre(lbl, "cancel:c") THEN "cancel"
+             ELSE IF Pre(lbl, "unhold:c") THEN "unhold"
              ELSE IF Pre(lbl, "fire:c") /\ Len(lbl) > 8 THEN "fire" ELSE "?"
 Digit(c) == CASE c = "1" -> 1 [] c = "2" -> 2 [] c = "3" -> 3 [] c = "4" -> 4 [] c = "5" -> 5
               [] c = "6" -> 6 [] c = "7" -> 7 [] c = "8" -> 8 [] c = "9" -> 9 [] OTHER -> 0
@@ -67,7 +72,8 @@ What(lbl) == SubSeq(lbl, 9, Len(lbl))
 CanAct(k, p, lbl) ==
     /\ p \in Procs
     /\ CASE k = "call"   -> pc[p] = "idle" /\ ~Done(p)
-         [] k = "grant"  -> pc[p] \in {"w", "cs"}
+         [] k = "grant"  -> pc[p] \in {"w", "cs"} /\ mtx = 0
+         [] k = "unhold" -> pc[p] = "inlong"
          [] k = "cancel" -> InWait(p) /\ Op(p).c /\ ~ctxc[p]
          [] k = "fire"   -> /\ InWait(p) /\ What(lbl) \in {Op(p).fires[i] : i \in 1..Len(Op(p).fires)}
                             /\ What(lbl) \notin fired[p] /\ ~ecl[p]
@@ -77,7 +83,8 @@ Act(k, p, lbl) ==
     /\ UNCHANGED <<l, drift, live, ps2, sseq>>
     /\ val0' = val
     /\ CASE k = "call"   -> Call(p)
-         [] k = "grant"  -> WriteCS(p) \/ SampleCS(p)
+         [] k = "grant"  -> WriteCS(p) \/ SampleCS(p) \/ LongEnter(p)
+         [] k = "unhold" -> LongExit(p)
          [] k = "cancel" -> Cancel(p)
          [] k = "fire"   -> Fire(p, What(lbl))
 
@@ -118,7 +125,7 @@ Drift(why) ==
     /\ l' = l + 1
     /\ UNCHANGED <<vars, ps2, sseq, val0>>
 
-DiffName == IF ps.bad # ps2.bad THEN "bad" ELSE IF ps.cell # ps2.cell THEN "cell" ELSE IF ps.canc # ps2.canc THEN "canc"
+DiffName == IF ps.bad # ps2.bad THEN "bad" ELSE IF ps.cfgs # ps2.cfgs THEN "cfgs" ELSE IF ps.canc # ps2.canc THEN "canc"
             ELSE IF DOMAIN ps.calls # DOMAIN ps2.calls THEN "calls (ids)" ELSE IF ps.calls # ps2.calls THEN "calls" ELSE "m"
 Differs == "monitor state after the step differs from the recorded events (first differing field: " \o DiffName \o ")"
 
@@ -160,6 +167,8 @@ TStep ==
          [] e.ev = "call"   -> Rec(FCall(ps2, e.xid, e))
          [] e.ev = "cancel" -> Rec(FCancel(ps2, e.xid))
          [] e.ev = "fire"   -> Rec(FFire(ps2, e.xid, e.what))
+         [] e.ev = "swapin" ->
+              IF e.in = val0 THEN Rec(FSwapIn(ps2, e.xid, e.in)) ELSE Drift("long swap callback was not entered with the spec's value")
          [] e.ev = "swapcb" ->
               IF e.in = val0 THEN Rec(FSwapCb(ps2, e.xid, e.in, e.out)) ELSE Drift("swap callback did not see the spec's value")
          [] e.ev = "valid" ->
